@@ -114,6 +114,36 @@ def refused_then_asked_again(sd):
     return out
 
 
+MEMO_READS = ["heads", "revisionMap", "bases", "realHeads", "realBases", "heads", "revisionMap"]
+
+
+def memo_reads(hist, reads=MEMO_READS):
+    """the same reads on ONE fresh RevisionMap object, in order: [{'ok': sorted list} | {'err': name}]"""
+    out = []
+    with warnings.catch_warnings():
+        warnings.simplefilter("ignore")
+        try:
+            sd = revfake.make_sd(hist)
+        except Exception as e:  # noqa
+            return [{"err": err_name(e)} for _ in reads]
+        m = sd.revision_map
+        fns = {
+            "heads": lambda: m.heads,
+            "bases": lambda: m.bases,
+            "realHeads": lambda: m._real_heads,
+            "realBases": lambda: m._real_bases,
+            "revisionMap": lambda: [k for k in m._revision_map if isinstance(k, str) and m._revision_map[k] is not None and m._revision_map[k].revision == k],
+        }
+        for r in reads:
+            try:
+                with alarm(0.5):
+                    v = fns[r]()
+                out.append({"ok": sorted(v)})
+            except Exception as e:  # noqa
+                out.append({"err": err_name(e)})
+    return out
+
+
 def canon_model_load(ans):
     if "ok" not in ans:
         return ans
